@@ -83,30 +83,81 @@ def handler_chain(F, body, top, site=None):
     return chain
 
 
+def filter_predicate(F, co):
+    """The composed scenario filter: the body holding the `--name` match — the closure of filter_run it is (nested) in, or the private
+    fn / method that was extracted for it."""
+    isms = [b for b in F.crate_bodies() if b.name.startswith("cucumber::") and any(True for _ in b.calls(lambda t: callee_is(t, r"Regex::is_match$")))]
+    if len(isms) != 1:
+        raise Unverifiable(f"composed scenario filter (the body matching --name): {len(isms)}")
+    P = isms[0]
+    while F.parent_body(P) is not None and F.parent_body(P) is not co:
+        P = F.parent_body(P)
+    return P
+
+
 def r1(F, R):
+    """Precedence of the three filter sources, on the deep path table of the composed filter (whatever its spelling: nested
+    `map_or_else`, `if let` chains, a `match` on a tuple, a private struct with a method): asked first is the `Option<Regex>` (--name): Some =>
+    the answer is `is_match(scenario.name)` and nothing else is consulted; None and `Option<TagOperation>` (--tags) Some => the answer is the
+    tag evaluation; both None => the answer is the user's closure called with the predicate's own (feature, rule, scenario)."""
+    from . import deep as D
+    from .termtypes import Typer
     co = filter_run_co(F)
-    nested = F.nested(co)
-    ism = [(b, s, t) for b in nested for s, t in b.calls(lambda t: callee_is(t, r"Regex::is_match$"))]
-    ev = [(b, s, t) for b in nested for s, t in b.calls(lambda t: callee_is(t, r"tag::Ext::eval$"))]
-    usr = [(b, s, t) for b in nested for s, t in b.calls(lambda t: re.search(r"ops::Fn", (op_fn(t["func"]) or {}).get("trait", "")) and
-                                                        (op_fn(t["func"]) or {}).get("self", "").lstrip("&") == "F")]
-    R.check(len(ism) == 1 and len(ev) == 1 and len(usr) == 1, "three-sources", co, "--name, --tags, closure", f"is_match x{len(ism)}, eval x{len(ev)}, user closure x{len(usr)}")
-    if not (len(ism) == 1 and len(ev) == 1 and len(usr) == 1):
+    P = filter_predicate(F, co)
+    dp = D.Deep(F, P, max_paths=400)
+    rows = dp.run()
+    if not rows or any(p.cut for p in rows):
+        raise Unverifiable("composed scenario filter: empty path table or a loop")
+    T = Typer(F, P, dp)
+    base = P.arg_count - 3   # (feature, rule, scenario) are the last three parameters
+    if base < 0:
+        raise Unverifiable("composed scenario filter takes fewer than three parameters")
+    seen = set()
+    ism = ev = usr = None
+    for p in rows:
+        st = {}
+        for a, o in p.conds:
+            if a[0] == "discr" and isinstance(o, str):
+                ty = re.sub(r"^&(mut )?", "", T.ty(a[1]) or "")
+                if ty == "std::option::Option<regex::Regex>":
+                    st.setdefault("name", o)
+                elif ty == "std::option::Option<gherkin::tagexpr::TagOperation>":
+                    st.setdefault("tags", o)
+        calls = [e for e in p.effects if e[0] == "call"]
+        c_ism = [e for e in calls if re.search(r"Regex::is_match$", e[1])]
+        c_ev = [e for e in calls if re.search(r"tag::Ext>?::eval$", e[1])]
+        c_usr = [e for e in calls if e[1] == "<indirect>" and re.sub(r"^&(mut )?", "", T.ty(e[2][0]) or "") in ("F", "Filter") or
+                 (e[1] == "<indirect>" and not D.mentions(e[2][0], lambda x: x[0] == "closure"))]
+        is_ret = lambda e: isinstance(p.ret, tuple) and len(p.ret) == 4 and p.ret[0] == "call" and p.ret[3] == e[4]
+        n, t = st.get("name"), st.get("tags")
+        conds = " ∧ ".join(f"{D.fmt(P, a)[:40]}={o}" for a, o in p.conds) or "always"
+        if n == "Some":
+            seen.add("name")
+            ok = len(c_ism) == 1 and not c_ev and not c_usr and is_ret(c_ism[0])
+            R.check(ok, "name-filter-first", P, "--name given => is_match decides alone", f"[{conds}] with a --name filter the answer is not (only) Regex::is_match")
+        elif n == "None" and t == "Some":
+            seen.add("tags")
+            ok = len(c_ev) == 1 and not c_ism and not c_usr and is_ret(c_ev[0])
+            R.check(ok, "tags-only-without-name", P, "no --name, --tags given => tag evaluation decides alone", f"[{conds}] with --tags (and no --name) the answer is not (only) the tag evaluation")
+        elif n == "None" and t == "None":
+            seen.add("closure")
+            ok = len(c_usr) == 1 and not c_ism and not c_ev and is_ret(c_usr[0])
+            if ok:
+                args = c_usr[0][2][1:]
+                if len(args) == 1 and args[0][0] == "tuple":
+                    args = args[0][1]
+                ok = len(args) == 3 and all(D.mentions(args[i], lambda x, i=i: x == ("arg", base + 1 + i)) for i in range(3))
+            R.check(ok, "closure-only-without-cli-filters", P, "neither => the user's closure decides, called with (feature, rule, scenario)",
+                    f"[{conds}] without CLI filters the answer is not the user's closure called with the predicate's own (feature, rule, scenario)")
+        else:
+            R.violation("three-sources", P, f"[{conds}] the composed filter answers without having asked the --name filter first (and --tags second)")
+    R.check(seen == {"name", "tags", "closure"}, "three-sources", P, "--name, --tags, closure", f"the composed filter only knows the cases {sorted(seen)}")
+    if seen != {"name", "tags", "closure"}:
         return
-    # common top: the composed filter closure
-    def top_of(b):
-        while F.parent_body(b) is not co and F.parent_body(b) is not None:
-            b = F.parent_body(b)
-        return b
-    tops = {top_of(x[0]).key for x in (ism[0], ev[0], usr[0])}
-    R.check(len(tops) == 1, "one-composed-filter", co, "", "the three filter sources are not combined in one closure")
-    top = top_of(ism[0][0])
-    c_ism = handler_chain(F, ism[0][0], top, ism[0][1])
-    c_ev = handler_chain(F, ev[0][0], top, ev[0][1])
-    c_usr = handler_chain(F, usr[0][0], top, usr[0][1])
-    R.check(sorted(set(c_ism)) == [("re_filter", "Some")], "name-filter-first", ism[0][1], "is_match ⇐ re_filter is Some", f"Regex::is_match runs under {c_ism}")
-    R.check(sorted(set(c_ev)) == [("re_filter", "None"), ("tags_filter", "Some")], "tags-only-without-name", ev[0][1], "eval ⇐ re_filter None ∧ tags_filter Some", f"tag evaluation runs under {c_ev}")
-    R.check(sorted(set(c_usr)) == [("re_filter", "None"), ("tags_filter", "None")], "closure-only-without-cli-filters", usr[0][1], "closure ⇐ both None", f"the user closure runs under {c_usr}")
+    ism = [(b, s, t) for b in F.nested(P) for s, t in b.calls(lambda t: callee_is(t, r"Regex::is_match$"))]
+    ev = [(b, s, t) for b in F.nested(P) for s, t in b.calls(lambda t: callee_is(t, r"tag::Ext::eval$"))]
+    if len(ism) != 1 or len(ev) != 1:
+        raise Unverifiable(f"composed scenario filter: is_match x{len(ism)}, eval x{len(ev)}")
     # haystack is the scenario name
     hs = A.deep_slice(F, ism[0][0], [ism[0][2]["args"][1]])
     R.check(("gherkin::Scenario", "name") in hs.fields and not [f for f in hs.fields if f[0].startswith("gherkin::") and f != ("gherkin::Scenario", "name")], "name-regex-on-scenario-name", ism[0][1],
@@ -114,7 +165,7 @@ def r1(F, R):
     # tags union
     tags.check_tag_union(F, R, ev[0][0], ev[0][2]["args"][1], "tag-filter-tags", ev[0][1], "filter tag")
     # the user closure receives feature, rule, scenario unchanged
-    R.floor(7)
+    R.floor(6)
 
 
 def r2(F, R):
@@ -302,17 +353,22 @@ def r3(F, R):
                         calls = [loop["pred"]] if re.search(r"ops::Fn", (op_fn(loop["pred"][1]["func"]) or {}).get("trait", "")) else []
                     else:
                         pk = A.closure_of_operand(F, nb, fl[0]["args"][1])
-                        calls = [(s2, t2) for s2, t2 in pk.calls(lambda t2: re.search(r"ops::Fn", (op_fn(t2["func"]) or {}).get("trait", "")))] if pk else []
+                        P = filter_predicate(F, co)
+                        calls = [(s2, t2) for s2, t2 in pk.calls(lambda t2: re.search(r"ops::Fn", (op_fn(t2["func"]) or {}).get("trait", "")) or F.callee_body(t2, pk.crate) is P)] if pk else []
                     okp = False
                     if len(calls) == 1:
-                        tup = op_local(calls[0][1]["args"][1])
-                        sd = pk.single_def(tup) if tup is not None else None
-                        if sd and sd[1] == "assign" and sd[2]["rv"]["k"] == "agg":
-                            rule_ops = [o for o in sd[2]["rv"]["ops"] if op_local(o) is not None and pk.locals[op_local(o)].startswith("std::option::Option<&gherkin::Rule>")]
-                            if len(rule_ops) == 1:
-                                rsd = pk.single_def(op_local(rule_ops[0]))
-                                var = rsd[2]["rv"].get("variant") if rsd and rsd[1] == "assign" and rsd[2]["rv"]["k"] == "agg" else None
-                                okp = var == ("Some" if owner == "gherkin::Rule" else "None")
+                        t2 = calls[0][1]
+                        if re.search(r"ops::Fn", (op_fn(t2["func"]) or {}).get("trait", "")):
+                            tup = op_local(t2["args"][1])
+                            sd = pk.single_def(tup) if tup is not None else None
+                            cand_ops = sd[2]["rv"]["ops"] if sd and sd[1] == "assign" and sd[2]["rv"]["k"] == "agg" else []
+                        else:
+                            cand_ops = t2["args"]   # the composed filter as a private fn / method: called directly
+                        rule_ops = [o for o in cand_ops if op_local(o) is not None and pk.locals[op_local(o)].startswith("std::option::Option<&gherkin::Rule>")]
+                        if len(rule_ops) == 1:
+                            rsd = pk.single_def(op_local(rule_ops[0]))
+                            var = rsd[2]["rv"].get("variant") if rsd and rsd[1] == "assign" and rsd[2]["rv"]["k"] == "agg" else None
+                            okp = var == ("Some" if owner == "gherkin::Rule" else "None")
                     R.check(okp, f"predicate-rule-arg/{owner.split('::')[1]}", s, f"filter(&feature, {'Some(rule)' if owner == 'gherkin::Rule' else 'None'}, s)",
                             f"the {owner.split('::')[1].lower()}-level scenarios are filtered with the wrong `rule` argument")
     # Feature.rules gets the taken vector back
